@@ -124,8 +124,8 @@ def main(ctx, args):
         jobs.append(("enumw", ["enumw", "4"], None))
         for i in range(4 if quick else 32):
             jobs.append((f"randw{i}", ["randw", str(ctx.seed * 1000 + 500 + i), "3000", str(3 + i % 3), str(3 + i % 4)], None))
-        for i in range(8 if quick else 64):
-            jobs.append((f"malformed{i}", ["malformed", str(ctx.seed * 1000 + 900 + i), "500" if quick else "2000", "24"], None))
+        for i in range(8 if quick else 32):
+            jobs.append((f"malformed{i}", ["malformed", str(ctx.seed * 1000 + 900 + i), "500" if quick else "1500", "24"], None))
 
         def work(job):
             st = new_stats()
